@@ -29,10 +29,11 @@ Record cfg := mkCfg {
   fix_pdur_int : bool;      (* Pdur stores the remaining time itself unless delta is a Rest  *)
   fix_scale_tuning : bool;  (* Scale.__init__ keeps a Tuning instance (octave ratio, spo)    *)
   fix_scale_key : bool;     (* EventDict.__call__ does not turn a Scale into an arrayed_param *)
-  fix_pdelta_input : bool   (* Pdelta embeds its pattern with the event received after the rest, not the first one *)
+  fix_pdelta_input : bool;  (* Pdelta embeds its pattern with the event received after the rest, not the first one *)
+  fix_pchain_return : bool  (* Pchain returns the event it was sent, not a half-transformed copy, when a stream ends *)
 }.
-Definition patched := mkCfg true true true true true true.
-Definition unpatched := mkCfg false false false false false false.
+Definition patched := mkCfg true true true true true true true.
+Definition unpatched := mkCfg false false false false false false false.
 
 Record kern := mkK { k_midicps : Q -> Q; k_cpsmidi : Q -> Q; k_dbamp : Q -> Q; k_ampdb : Q -> Q }.
 
@@ -382,7 +383,9 @@ Inductive pat :=
 | PChain (ps : list pat)
 | PPar (ps : list pat)
 | PDelta (t : value) (p : pat)
-| PDur (d : num) (p : pat).
+| PDur (d : num) (p : pat)
+| PSeq (ps : list pat) (repeats : nat) (offset : Z)      (* Pseq(list of event patterns, repeats, offset) *)
+| PN (p : pat) (repeats : nat).                          (* Pn(pattern, repeats) *)
 
 Inductive st :=
 | SBind (kvs : list (string * vstream))
@@ -394,6 +397,7 @@ Inductive st :=
                                                             embedded with the FIRST input event *)
 | SDur (elapsed : num) (d : num) (s : st)
 | SDurEnd (s : st)                                       (* after "return (yield inevent)" *)
+| SSeq (cur : option st) (rest : list pat)               (* inval = yield from stm.embed(item, inval), item after item *)
 | SDone.
 
 Fixpoint init (p : pat) : st :=
@@ -404,6 +408,11 @@ Fixpoint init (p : pat) : st :=
   | PPar ps => SPar false spec_init (F 0) (map init ps)
   | PDelta t p => SDelta true t (init p)
   | PDur d p => SDur (F 0) d (init p)
+  | PSeq ps rep off =>
+      let n := Z.of_nat (List.length ps) in
+      let o := Z.to_nat (off mod n) in                    (* self.offset % len(lst) *)
+      SSeq None (List.concat (List.repeat (skipn o ps ++ firstn o ps) rep))
+  | PN p rep => SSeq None (List.repeat p rep)
   end.
 
 (* Pbind._stream_dict_next: one value per key, StopStream at the first exhausted stream *)
@@ -419,7 +428,7 @@ Fixpoint dict_next (kvs : list (string * vstream)) : option (event * list (strin
 
 Inductive res :=
 | RYield (e : event) (s : st) (offs : list msg)
-| RStop (offs : list msg)
+| RStop (offs : list msg) (ret : event)                 (* ret: the value __embed__ returns (the last event sent in) *)
 | RError.
 
 (* cleanup entries still registered by the Pmono streams inside an abandoned state *)
@@ -432,6 +441,7 @@ Fixpoint pending_offs K (s : st) : list msg :=
   | SDeltaStale _ s' => pending_offs K s'
   | SDur _ _ s' => pending_offs K s'
   | SDurEnd s' => pending_offs K s'
+  | SSeq (Some s') _ => pending_offs K s'
   | _ => []
   end.
 
@@ -444,6 +454,20 @@ Fixpoint set_nth {A} (n : nat) (x : A) (l : list A) : list A :=
 
 Definition tolerance : num := F (1152921504606847 # 1152921504606846976).   (* the double 0.001 *)
 
+(* the items of a Pseq / Pn one after the other, given how one stream state is pulled (step): when the current item
+   ends, the next one is embedded with the value it returned and pulled at once *)
+Fixpoint seq_go (step : st -> event -> nat -> res * nat) (cur : st) (rest : list pat) (ev : event) (mc : nat)
+                (offs : list msg) : res * nat :=
+  match step cur ev mc with
+  | (RYield e cur' o, mc') => (RYield e (SSeq (Some cur') rest) (offs ++ o), mc')
+  | (RError, mc') => (RError, mc')
+  | (RStop o ret, mc') =>
+      match rest with
+      | [] => (RStop (offs ++ o) ret, mc')
+      | p :: rest' => seq_go step (init p) rest' ret mc' (offs ++ o)
+      end
+  end.
+
 Section Streams.
 Variables (c : cfg) (K : kern) (lib : synthlib).
 
@@ -454,16 +478,16 @@ Fixpoint snext (depth : nat) (s : st) (inev : event) (mc : nat) : res * nat :=
   | O => (RError, mc)
   | S dep =>
     match s with
-    | SDone => (RStop [], mc)
+    | SDone => (RStop [] inev, mc)
     | SBind kvs =>
         (* event = inevent.copy(); event.update(self._stream_dict_next(stream_dict)) *)
         match dict_next kvs with
-        | None => (RStop [], mc)
+        | None => (RStop [] inev, mc)                          (* except StopStream: pass; return inevent *)
         | Some (upd, kvs') => (RYield (update inev upd) (SBind kvs') [], mc)
         end
     | SMono instr kvs None =>
         match dict_next kvs with
-        | None => (RStop [], mc)          (* cleanup.run() with nothing registered *)
+        | None => (RStop [] inev, mc)     (* cleanup.run() with nothing registered *)
         | Some (upd, kvs') =>
             let e0 := put "type" (VSym "_mono_on") (as_event inev) in
             let e1 := mono_prepare K lib instr (2 * mc + 1) (update e0 upd) in
@@ -472,7 +496,7 @@ Fixpoint snext (depth : nat) (s : st) (inev : event) (mc : nat) : res * nat :=
         end
     | SMono instr kvs (Some (on, names)) =>
         match dict_next kvs with
-        | None => (RStop [mono_off (node_of on) (truthy (plain K on "has_gate"))], mc)
+        | None => (RStop [mono_off (node_of on) (truthy (plain K on "has_gate"))] inev, mc)
         | Some (upd, kvs') =>
             let e0 := put "type" (VSym "_mono_set") (as_event inev) in
             let e1 := update e0 upd in
@@ -482,25 +506,27 @@ Fixpoint snext (depth : nat) (s : st) (inev : event) (mc : nat) : res * nat :=
         end
     | SChain ss =>
         (* for stream in streams: inevent = stream.next(inevent) *)
+        (* a stream that ends: "except StopStream: pass; return inevent" -- inevent is then the copy as the streams
+           before it have transformed it (released code) *)
         let fix go (ss : list st) (ev : event) (mc : nat) (offs : list msg)
-              : option (event * list st * list msg) * list msg * bool * nat :=
+              : option (event * list st * list msg) * (list msg * event) * bool * nat :=
           match ss with
-          | [] => (Some (ev, [], offs), [], false, mc)
+          | [] => (Some (ev, [], offs), ([], ev), false, mc)
           | s1 :: r =>
               match snext dep s1 ev mc with
               | (RYield e' s1' o, mc') =>
                   match go r e' mc' (offs ++ o) with
                   | (Some (ef, r', of), x, err, mc'') => (Some (ef, s1' :: r', of), x, err, mc'')
-                  | (None, x, err, mc'') => (None, x ++ pending_offs K s1', err, mc'')
+                  | (None, (x, rt), err, mc'') => (None, (x ++ pending_offs K s1', rt), err, mc'')
                   end
-              | (RStop o, mc') => (None, offs ++ o ++ flat_map (pending_offs K) r, false, mc')
-              | (RError, mc') => (None, [], true, mc')
+              | (RStop o _, mc') => (None, (offs ++ o ++ flat_map (pending_offs K) r, ev), false, mc')
+              | (RError, mc') => (None, ([], ev), true, mc')
               end
           end in
         match go ss inev mc [] with
         | (Some (ef, ss', offs), _, _, mc') => (RYield ef (SChain ss') offs, mc')
         | (None, _, true, mc') => (RError, mc')
-        | (None, offs, false, mc') => (RStop offs, mc')
+        | (None, (offs, rt), false, mc') => (RStop offs (if fix_pchain_return c then inev else rt), mc')
         end
     | SDelta true t s' =>
         (* if self.time > 0.0: yield evt.silent(self.time, inevent) *)
@@ -521,10 +547,10 @@ Fixpoint snext (depth : nat) (s : st) (inev : event) (mc : nat) : res * nat :=
         | (RYield e s'' o, mc') => (RYield e (SDelta false t s'') o, mc')
         | r => r
         end
-    | SDurEnd s' => (RStop (pending_offs K s'), mc)
+    | SDurEnd s' => (RStop (pending_offs K s') inev, mc)   (* return (yield inevent): the event sent in now *)
     | SDur elapsed d s' =>
         match snext dep s' inev mc with
-        | (RStop o, mc') => (RStop o, mc')                     (* quant is None *)
+        | (RStop o _, mc') => (RStop o inev, mc')              (* quant is None; return inevent *)
         | (RError, mc') => (RError, mc')
         | (RYield e0 s'' o, mc') =>
             if negb (fix_pdur_event c) && negb (is_evt e0) then (RError, mc')   (* 'dict' object is not callable *)
@@ -542,12 +568,20 @@ Fixpoint snext (depth : nat) (s : st) (inev : event) (mc : nat) : res * nat :=
               (RYield (put "delta" dv e) (SDurEnd s'') o, mc')
             else (RYield e (SDur next_elapsed d s'') o, mc')
         end
+    | SSeq cur rest =>
+        (* Pseq / Pn: for item in ...: inval = yield from stm.embed(item, inval) -- the value an item returns is the
+           input event of the next item, which starts inside the same pull *)
+        match cur, rest with
+        | Some s0, _ => seq_go (snext dep) s0 rest inev mc []
+        | None, p :: rest' => seq_go (snext dep) (init p) rest' inev mc []
+        | None, [] => (RStop [] inev, mc)
+        end
     | SPar started q now cs =>
         (* _init_streams: queue.add(0.0, stream) for every pattern; first event is at time zero *)
         let q0 := if started then q
                   else fold_left (fun acc i => fst (spec_step (OAdd 0 (Z.of_nat i)) acc)) (seq 0 (List.length cs)) q in
         match spec_step OPop q0 with
-        | (_, RKeyError) => (RStop [], mc)                     (* while not queue.empty() *)
+        | (_, RKeyError) => (RStop [] inev, mc)                (* while not queue.empty(); return inevent *)
         | (q1, RItem _ t) =>
             let i := Z.to_nat t in
             match nth_error cs i with
@@ -567,14 +601,14 @@ Fixpoint snext (depth : nat) (s : st) (inev : event) (mc : nat) : res * nat :=
                                 (SPar true q2 nexttime (set_nth i ci' cs)) o, mc')
                     | _ => (RError, mc')
                     end
-                | (RStop o, mc') =>
+                | (RStop o _, mc') =>
                     match snd (spec_step (OPeek true) q1) with
                     | RItem p _ =>
                         (* that child stream ended, so rest until next one *)
                         let nexttime := F p in
                         (RYield (silent (VNum (nsub nexttime now)) inev)
                                 (SPar true q1 nexttime (set_nth i SDone cs)) o, mc')
-                    | _ => (RStop o, mc')                        (* queue.clear() *)
+                    | _ => (RStop o inev, mc')                   (* queue.clear(); return inevent *)
                     end
                 end
             end
@@ -596,7 +630,7 @@ Fixpoint player (fuel depth : nat) (s : st) (proto : event) (mc : nat) (now : Q)
   | S f =>
     match snext depth s proto mc with
     | (RError, _) => []
-    | (RStop offs, _) => map (LOff now) offs                 (* except StopStream: self._cleanup.run() *)
+    | (RStop offs _, _) => map (LOff now) offs               (* except StopStream: self._cleanup.run() *)
     | (RYield e0 s' offs, mc') =>
         let e := as_event e0 in
         map (LOff now) offs ++ LEv now e ::
@@ -628,7 +662,7 @@ Fixpoint player_c (fuel depth : nat) (ct : ctl) (s : st) (proto : event) (mc : n
                           end in
       match snext depth s proto mc with
       | (RError, _) => []
-      | (RStop offs, _) => map (LOff now1) offs
+      | (RStop offs _, _) => map (LOff now1) offs
       | (RYield e0 s' offs, mc') =>
           let e := as_event e0 in
           map (LOff now1) offs ++ LEv now1 e ::
